@@ -29,6 +29,13 @@ impl PartialEqSpecImpl for AssetInfo {
     open spec fn obeys_eq_spec() -> bool { true }
     open spec fn eq_spec(&self, o: &AssetInfo) -> bool { self.same(o) }
 }
+pub open spec fn raw_same(a: AssetInfoRaw, b: AssetInfoRaw) -> bool {
+    match (a, b) {
+        (AssetInfoRaw::NativeToken { denom: x }, AssetInfoRaw::NativeToken { denom: y }) => x@ == y@,
+        (AssetInfoRaw::Token { contract_addr: x }, AssetInfoRaw::Token { contract_addr: y }) => x.0@ == y.0@,
+        _ => false,
+    }
+}
 // derived PartialEq of AssetInfoRaw (cw_serde): same variant and equal payload
 impl PartialEq for AssetInfoRaw { #[verifier::external_body] fn eq(&self, o: &AssetInfoRaw) -> (r: bool) { unimplemented!() } }
 impl PartialEqSpecImpl for AssetInfoRaw {
@@ -176,6 +183,12 @@ impl AssetInfoRaw {
 //%fn packages/haloswap/src/asset.rs | impl AssetInfoRaw | is_native_token
 //%%sig
     ensures r == (self is NativeToken),
+//%end
+//%fn packages/haloswap/src/asset.rs | impl AssetInfoRaw | equal
+//%%sig
+    ensures /*[C16,C17 raw.equal]*/ r == raw_same(*self, *asset),
+//%%head
+        broadcast use {axiom_string_eq_spec, axiom_string_obeys_eq};
 //%end
 }
 impl PairInfoRaw {
